@@ -962,6 +962,15 @@ class Tensor:
         if self._base is None:
             return self._grad
 
+        if self.constant:
+            # a constant has no gradient to derive from its base
+            return None
+
+        if self._base.constant:
+            # (the gradient of a view cannot be derived from a base
+            # that - being constant - has none)
+            return self._grad
+
         if self._view_grad is not None and self._view_grad.base is self._base._grad:
             # view grad has been computed already
             return self._view_grad
